@@ -1473,11 +1473,13 @@ class NodeListComprehensionProduct:
         result = ValueList()
         localEnv = environment.newEnv()
         list1 = self.listExpr1.evaluate(environment)
-        list2 = self.listExpr2.evaluate(environment)
         values1 = getCollectionValue(list1, self.what1)
-        values2 = getCollectionValue(list2, self.what2)
         for listValue1 in values1:
             localEnv.put(self.identifier1, listValue1)
+            # like the inner loop of two nested loops, the second list is
+            # evaluated for every element of the first and may refer to it
+            list2 = self.listExpr2.evaluate(localEnv)
+            values2 = getCollectionValue(list2, self.what2)
             for listValue2 in values2:
                 localEnv.put(self.identifier2, listValue2)
                 if self.conditionExpr:
@@ -2112,11 +2114,12 @@ class NodeSetComprehensionProduct:
         result = ValueSet()
         localEnv = environment.newEnv()
         list1 = self.listExpr1.evaluate(environment)
-        list2 = self.listExpr2.evaluate(environment)
         values1 = getCollectionValue(list1, self.what1)
-        values2 = getCollectionValue(list2, self.what2)
         for value1 in values1:
             localEnv.put(self.identifier1, value1)
+            # (see NodeListComprehensionProduct)
+            list2 = self.listExpr2.evaluate(localEnv)
+            values2 = getCollectionValue(list2, self.what2)
             for value2 in values2:
                 localEnv.put(self.identifier2, value2)
                 if self.conditionExpr:
